@@ -138,8 +138,14 @@ class AbstractAst:
                 raise RTAMTException('{} is not ANTRL4 ErrorListener'.format(parser._listeners[0].__class__.__name__))
             # characters that no token rule matches are errors too (the default listener only prints them and skips them)
             lexer._listeners = [parser._listeners[0]]
-        ctx = parser.specification_file()
-        self.visit(ctx.specification())
+        try:
+            ctx = parser.specification_file()
+            self.visit(ctx.specification())
+        except RuntimeError as err:
+            # the ANTLR parser and the visitors recurse once per nesting level of the text
+            if 'recursion' not in str(err):
+                raise
+            raise RTAMTException('The specification is nested too deeply to be parsed: {}'.format(err))
         return
 
     @property
